@@ -50,17 +50,17 @@ MANIFEST = {
         text=_SCOPE + "Proved with arbitrary per-sink lists of throwing write and flush calls: C10_conservation_under_faults, C10_pop_on_every_path (the processed event leaves the transit buffer whether or not an exception escapes, other contexts untouched), C10_process_makes_progress, C10_write_fault_local / C10_process_event_local (only the sinks after the first throwing accepting sink miss that one statement; queues, buffers, other statements, configuration untouched), C10_fault_schedule_constant, C10_at_most_once_under_faults, C10_flush_visits_every_sink, C10_flush_fault_loses_nothing, C10_flush_flag_raised, C10_backtrace_without_init. Formatter exceptions (std and non-std, finding F4, repaired) are an extraction obligation here (catch-all next to the std::exception handler) and are exercised on the real formatter by C04's harness; libfmt itself is not modelled.",
         note=_COMMON_NOTE, ref="§5 C10, §7 F4, §9.1"),
     "C16": dict(
-        technique="Lean 4 proof: decision-logic theorems (enqueue iff level >= logger level; written to sink i iff level >= sink level and every filter accepts, independent of other sinks) + level table obligation; differential correspondence with per-sink recording and argument-evaluation counters",
-        text="Machine-checked decision logic: shouldLog / sinkAccepts characterise exactly when a statement is enqueued (and its arguments evaluated) and when each sink receives it, independently of the logger's other sinks, with the statement's own (static or dynamic) level. Tied to the code by the H2 harness using the real LOG_* macros (static levels) and the dynamic-level call with side-effect counters in the arguments, sink level filters and filters, level changes interleaved, against the model, plus an oracle on every recorded sink call.",
-        note=_COMMON_NOTE + " Override pattern formatters per sink are covered by C12.", ref="§5 C16"),
+        technique="Lean 4 proof: decision-logic and dispatch theorems on the backend model (enqueue and argument evaluation iff level >= logger level at the call; written to sink i iff level >= that sink's level and every filter accepts, independent of the other sinks; the statement's own static or dynamic level travels with it) + level-table obligations extracted from LogLevel.h; differential correspondence with per-sink recording and argument-evaluation counters, level changes interleaved",
+        text=_SCOPE + "Proved: C16_shouldLog_iff (the frontend test is logger level <= statement level), C16_below_level_nothing (below the level nothing changes but the id counter: no evaluation, no enqueue), C16_at_level_enqueued (the record carries exactly the level passed, static or dynamic; parked, appended, or refused and counted), C16_sinks_exact / C16_sink_iff (the events of a dispatch are exactly one write per accepting sink, in list order, with the statement's own id, level and timestamp), C16_sink_independent (other sinks' levels and filters do not matter), C16_sink_prefix (a throwing sink cuts off only the sinks after it), C16_level_reported, C16_process_is_dispatch; obligations level_order / level_ranks / level_compare_is_rank_compare on the extracted enum. Tie: the H2 harness uses the real LOG_* macros (static levels) and the dynamic-level call with side-effect counters in the arguments, sink level filters and filters, level changes interleaved (also injected inside polls), against the model, plus an oracle on every recorded sink call. Concurrent add_filter against the backend's filter snapshot is covered by a separate stream when present (Filt bundle); with the sequential scheduler it cannot be produced.",
+        note=_COMMON_NOTE + " Override pattern formatters per sink are covered by C12.", ref="§5 C16, §9.1"),
     "C17": dict(
-        technique="Lean 4 proof: removal invariant on the backend model (a logger is erased only when every queue and buffer is empty; the removal flag is raised only after the erase; sinks destroyed exactly when unreferenced); differential correspondence incl. remove_logger_blocking, re-creation and sink destruction events",
-        text="Machine-checked on the backend model: an invalidated logger is erased only in a state where all queues and transit buffers are empty (so every statement logged through it has been written), the removal flag is raised only after the erase, a sink is destroyed exactly when neither the user nor a live logger references it. Tied to the code by H2 scripts with remove_logger / remove_logger_blocking / create_or_get_logger / dropped user references under ASan, compared with the model (logger counts, sink destructor events, flag waits).",
-        note=_COMMON_NOTE + " Contract assumed (enforced identically by generator, harness and model as no-ops): no log call through a logger after remove_logger, no re-creation before the removal completed. The registries' spinlock is proved separately under the release/acquire view semantics (Spin bundle, own correspondence stream on the real class under the atomic shim).", ref="§5 C17"),
+        technique="Lean 4 proof: logger/sink life-cycle invariant on the backend model for every schedule incl. frontend steps inside a sink destructor (site 9): an erased logger has no record left in any queue or buffer, the erase rests on the per-logger emptiness check of the current state (negative witness for a hoisted check), a dead sink is unreferenced and never used after its destructor, create/remove contracts; the registries' spinlock proved under the release/acquire view semantics; differential correspondence incl. remove_logger_blocking, re-creation, sink destruction under ASan",
+        text=_SCOPE + "Proved: C17_erased_logger_has_no_record (no record of an erased logger sits in any queue or transit buffer and every parked call's logger is valid and not erased — so statements logged before the removal are all popped, hence dispatched by C03, before the erase), C17_erase_only_when_drained, C17_erase_step_guarded (the erase uses allEmpty of the CURRENT state; with site 9 a logger may get a statement and be removed while an earlier logger's sink is being destroyed), C17_hoisted_check_erases_queued_logger (decide +kernel: with the check hoisted out of the loop that logger is erased with its statement queued), C17_dead_sink_unreferenced (a sink is destroyed only when the user dropped it and no un-erased logger holds it; sinks of un-erased loggers are alive), C17_no_use_after_dtor / C17_alive_sink_no_dtor (no write or flush of a sink after its destructor in the event log), C17_parked_removal_exclusive, C17_create_returns_existing / _fresh_object / _waits_for_erase (idempotent lookup; a name is re-created with new sinks only after the old object was erased), C17_remove_busy_noop; Spin.C17_spinlock_safe (mutual exclusion and visibility of the registries' lock for the extracted memory orders, every schedule and stale-load choice; witnesses for relaxed exchange/unlock). PARTIAL: 'remove_logger_blocking returns only after the removal completed' is proved per clean-up pass (C17_removal_flag_after_erase_partial: a removal flag is raised only for a name whose object was erased in that pass, and the caller waits on the flag, C17_flag_wait); the global statement needs uniqueness of flag numbers across all statements.",
+        note=_COMMON_NOTE + " Contract assumed (enforced identically by generator, harness and model as no-ops): no log call through a logger after remove_logger, no re-creation before the removal completed. File closing by ~FileSink is libc/OS behaviour: the harness uses recording sinks; real file sinks are C14/C15/C07's harnesses.", ref="§5 C17, §3.3 site 9, §9.1"),
     "C20": dict(
-        technique="Lean 4 proof: reclamation invariant (contexts retained after a drain = live threads that logged; the invalid-context counter equals the number of invalid registered contexts modulo 2^bits, bits extracted); differential correspondence with thread churn",
-        text="Machine-checked on the backend model: a context is removed only when its thread exited and its queue and transit buffer are empty; the invalid-context counter is exact as long as it cannot wrap (width extracted from ThreadContextManager.h; 8 bits proved insufficient — finding F13, repaired), so after a drain the retained contexts are exactly those of live threads that logged. Tied to the code by H2 scripts creating and ending threads (incl. dozens between two idle periods) and comparing for_each_thread_context counts with the model, plus a count oracle after the final drain.",
-        note=_COMMON_NOTE + " Shrinking of the unbounded queue is covered by C02's harness.", ref="§5 C20, §7 F13"),
+        technique="Lean 4 proof: reclamation invariants on the backend model for every schedule (invalid-context counter exact modulo 2^bits with the width extracted, a live thread's context never reclaimed, a reclaimed context empty with accepted = popped, after an idle pass the registry is exactly the live threads' contexts up to unreported failure counters); witnesses for a narrow counter (F13); differential correspondence with thread churn; shrink/capacity oracles on the unbounded builds",
+        text=_SCOPE + "Proved: C20_counter (invalidCnt = number of registered invalid contexts mod 2^bits), C20_counter_exact and C20_early_return_iff (below 2^bits registered contexts — obligation 32 <= extracted width; 1- and 2-bit witnesses reproduce F13 in miniature), C20_live_contexts_registered, C20_reclaimed_delivered (an unregistered context is empty and everything it accepted was popped: pending statements of an exited thread are delivered before the reclaim), C20_idle_poll_reclaims (after an idle pass that found everything empty every registered context is valid or holds a not yet reported failure counter — the F24 repair keeps those one more pass), C20_idle_poll_retains_live and C20_quiet_idle_poll_retains_live (idle pass with nothing injected: the registry is a permutation of the live threads' contexts, counts agree — 'contexts retained = live threads that logged'), for any number of start/exit cycles. Shrinking of the unbounded queue (capacity drops, nothing lost or reordered) is proved on the queue model in C02 (C02_shrink_iff, chain safety) and checked here by the capacity/shrink oracles on the two unbounded H2 builds; the backend model itself carries the bounded queue.",
+        note=_COMMON_NOTE, ref="§5 C20, §7 F13 F24, §9.1"),
 }
 
 THEOREMS = {p: [] for p in PROPS}
